@@ -10,7 +10,7 @@ import tempfile
 import zlib
 
 from harness.common import Ck, coq_bytes, coq_list, coq_str, parse_coq_N_list
-from translate import c13_archname, c13_nullstr, c13_vpk
+from translate import c13_archname, c13_nested, c13_nullstr, c13_vpk
 
 MANIFEST = dict(
     technique='Rocq proof: whole-history refinement of the executable VPK state machine to a plain map (invariant + induction over the '
@@ -47,7 +47,7 @@ MANIFEST = dict(
 )
 
 IMPORTS = ['Coq.Lists.List', 'Coq.NArith.NArith', 'SV.Fmt.VpkDir', 'SV.SM.Vpk', 'SV.Fmt.VpkArchName', 'SV.SM.VpkCorr', 'SV.Gen.VpkPlace_gen',
-           'SV.Gen.VpkArchName_gen', 'SV.Fmt.VpkNullStr', 'SV.Gen.VpkNullStr_gen']
+           'SV.Gen.VpkArchName_gen', 'SV.Fmt.VpkNullStr', 'SV.Gen.VpkNullStr_gen', 'SV.SM.VpkNested', 'SV.Gen.VpkNested_gen']
 PRE = 'Import ListNotations. Open Scope N_scope.\n'
 
 R_OK, R_RO, R_EXISTS, R_MISSING, R_BADNAME, R_BADIDX, R_BADDIR, R_EXC = 0, 1, 2, 3, 4, 5, 6, 9
@@ -1029,6 +1029,59 @@ def corr_nullstr(ck: Ck) -> None:
         ck.extra['nullstr_disagreement'] = {'literal': (lits[bad[0]] if bad[0] >= 0 else wl[-1 - bad[0]])[:2000]}
 
 
+# ------------------------------------------------------------------------------------------------ nested dicts
+def corr_nested(ck: Ck) -> None:
+    """SM/VpkNested.v ndel over the clean-up program compiled from VPK.__delitem__ vs the implementation's _fileinfo dicts:
+    which deletes raise KeyError and the key structure (dict order, empty dicts included) left behind."""
+    from srctools.vpk import VPK
+    n = bud(ck, 150, 400, 2000)
+    rng = ck.rng
+    exts, dirs, stems = ['t', 'u', ''], ['a', 'b', '', 'a/b'], ['x', 'y', 'z']
+    lits = []
+    d = tempfile.mkdtemp(prefix='c13t_', dir=os.environ.get('VERIF_SCRATCH', '/var/tmp'))
+
+    def shape(v) -> str:
+        return coq_list(f'({coq_bytes(enc(e))}, ' + coq_list(f'({coq_bytes(enc(p))}, ' + (coq_list(coq_bytes(enc(nm)) for nm in fs) if fs else '@nil (list N)') + ')'
+                                                            for p, fs in ds.items()) + ')' if ds else f'({coq_bytes(enc(e))}, @nil (list N * list (list N)))'
+                        for e, ds in v._fileinfo.items()) if v._fileinfo else '@nil (list N * list (list N * list (list N)))'
+    try:
+        for j in range(n):
+            v = VPK(os.path.join(d, 'n.vpk'), mode='w')
+            pool = [(rng.choice(dirs), rng.choice(stems), rng.choice(exts)) for _ in range(rng.choice([1, 2, 3, 5, 8]))]
+            for k in pool:
+                if k not in v:
+                    v.new_file(k)
+            before = shape(v)
+            ks = [rng.choice(pool) if rng.random() < 0.8 else (rng.choice(dirs), rng.choice(stems), rng.choice(exts)) for _ in range(rng.choice([1, 2, 3, 6]))]
+            oks = []
+            for k in ks:
+                try:
+                    del v[k]
+                    oks.append(True)
+                except KeyError:
+                    oks.append(False)
+            lits.append(f'({before}, {coq_list(c_key(k) for k in ks)}, {coq_list("true" if o else "false" for o in oks)}, {shape(v)})')
+            ck.count('corr_nested_deletes')
+            ck.hist('nested_delete', f'{sum(oks)} of {len(ks)} deletes succeed')
+            if any(oks) and len(v):
+                ck.seen(('nd', tuple(pool), tuple(ks)))
+    finally:
+        shutil.rmtree(d, ignore_errors=True)
+    vals = ck.coq_eval(IMPORTS, ['bad_idx (fun c : shape_t * list key * list bool * shape_t => let \'(s, ks, oks, a) := c in check_ndel g_del_prog s ks oks a) 0 '
+                                 + coq_list(lits)], name='vpknested', preamble=PRE)
+    if vals is None:
+        ck.obligation('correspondence:nested-delete', False, 'model could not be evaluated')
+        ck.tie_broken.append('correspondence VPK nested dicts: model evaluation failed')
+        return
+    bad = parse_coq_N_list(vals[0])
+    ck.obligation('correspondence:nested-delete', not bad,
+                  f'{len(lits)} archives x 1..6 deletes: SM/VpkNested.v ndel over the clean-up program compiled from __delitem__ vs the '
+                  f'_fileinfo dicts of the implementation (KeyError or not, keys left at all three levels in dict order): {len(bad)} disagreements')
+    if bad:
+        ck.tie_broken.append('correspondence VPK nested dicts (SM/VpkNested.v vs VPK.__delitem__)')
+        ck.extra['nested_disagreement'] = {'literal': lits[bad[0]][:1500]}
+
+
 # ------------------------------------------------------------------------------------------------ archive file names
 NAME_SUFFIXES = ['_dir.vpk', '.vpk', '', '_dir', 'dir.vpk', '_DIR.vpk', '.vpk_dir.vpk', '_dir.vpk.vpk', '_dir_dir.vpk', '__dir.vpk']
 NAME_INDEXES = [0, 1, 7, 10, 99, 100, 999, 1000, 32766]
@@ -1152,7 +1205,8 @@ def run(ck: Ck) -> None:
     ok_t = ck.translate('VpkPlace_gen', c13_vpk.translate)
     ok_t = ck.translate('VpkArchName_gen', c13_archname.translate) and ok_t
     ok_t = ck.translate('VpkNullStr_gen', c13_nullstr.translate) and ok_t
-    built = ok_t and ck.build(['Props/C13.vo', 'SM/VpkCorr.vo', 'Gen/VpkPlace_gen.vo', 'Gen/VpkArchName_gen.vo', 'Gen/VpkNullStr_gen.vo'])
+    ok_t = ck.translate('VpkNested_gen', c13_nested.translate) and ok_t
+    built = ok_t and ck.build(['Props/C13.vo', 'SM/VpkCorr.vo', 'Gen/VpkPlace_gen.vo', 'Gen/VpkArchName_gen.vo', 'Gen/VpkNullStr_gen.vo', 'Gen/VpkNested_gen.vo'])
     if built:
         ck.theorems('Props/C13.v')
         ck.instance_obligations(IMPORTS + ['SV.Fmt.VpkNameSplit', 'SV.Props.C13'], {
@@ -1186,11 +1240,17 @@ def run(ck: Ck) -> None:
             'nullstr_reader_dispatch_blank_end_string': 'nc_dispatch g_ncodec',
             'nullstr_same_text_codec_on_both_sides': 'nc_same_codec g_ncodec',
             'nullstr_instance_satisfies_theorem_premises': 'ncodec_ok g_ncodec',
+            # nested dicts (Gen/VpkNested_gen.v): premise of c13_nested_delete_is_flat_delete
+            'del_cleanup_pops_only_empty_dicts': 'prog_safe g_del_prog',
+            'del_cleanup_leaves_no_empty_dict': 'prog_tidy g_del_prog',
+            'del_checks_writable_before_touching': 'g_del_checks_writable_first',
+            'del_missing_file_raises_keyerror': 'g_del_keyerror',
+            'nested_dicts_indexed_ext_folder_name_everywhere': 'g_nest_order_ext_folder_name',
             'tree_strings_all_go_through_the_codec': 'andb g_tree_strings_read_by_iter_nullstr g_tree_strings_written_by_write_nullstring',
         }, name='vpkinst')
         import time as _t
         t0 = _t.time()
-        for fn in (corr_archnames, corr_nullstr, corr_machine, corr_decode, corr_names):
+        for fn in (corr_archnames, corr_nullstr, corr_nested, corr_machine, corr_decode, corr_names):
             fn(ck)
             if os.environ.get('C13_TIMING'):
                 print(f'  [timing] {fn.__name__}: {_t.time() - t0:.1f}s'); t0 = _t.time()
